@@ -18,7 +18,7 @@ def problem(rng, kind):
     cfg = dict(kind=kind, dim=dim, P=prand(rng, nv, 2, 3) or {(0,) * nv: 1}, q=prand(rng, nv, 2, 2) or {(0,) * nv: 1},
                theta=dy(rng, 1, 3), a=dy(rng, 1, 3), b=dy(rng, -2, 2),
                batch=[[dy(rng) for _ in range(nv)] for _ in range(rng.randint(1, 3))],
-               w={t: rng.randint(1, 4) / 2 for t in TERMS[kind]})
+               w={t: rng.randint(1, 4) / 2 for t in TERMS[kind]}, rev_keys=rng.random() < 0.5, rev_params=rng.random() < 0.3)
     n = len(cfg["batch"])
     cfg["obs"] = dict(inputs=[[dy(rng) for _ in range(nv)] for _ in range(n)], vals=[[float(rng.randint(-2, 2))] for _ in range(n)])
     if kind == "ode":
@@ -46,9 +46,10 @@ def build(cfg, masks):
     eq_type = {"ode": "ODE", "statio": "statio_PDE", "nonstatio": "nonstatio_PDE"}[kind]
     u = mk([cfg["P"]], eq_type, output_transform=lambda i, o, p: o + p.eq_params["b"])
     nn = eqx.tree_at(lambda m: m.scale, u.init_params(), jnp.array(cfg["theta"]))
-    P = Params(nn_params=nn, eq_params={"a": jnp.array(cfg["a"]), "b": jnp.array(cfg["b"])})
+    od = (lambda d: dict(reversed(list(d.items())))) if cfg.get("rev_keys") else (lambda d: d)      # dictionaries written in either key order
+    P = Params(nn_params=nn, eq_params=(od if cfg.get("rev_params") else (lambda d: d))({"a": jnp.array(cfg["a"]), "b": jnp.array(cfg["b"])}))
     q = cfg["q"]
-    Mtree = lambda t: Params(nn_params=bool(masks[t][0]), eq_params={"a": bool(masks[t][1]), "b": bool(masks[t][2])})
+    Mtree = lambda t: Params(nn_params=bool(masks[t][0]), eq_params=od({"a": bool(masks[t][1]), "b": bool(masks[t][2])}))
     use_str = all(as_string(masks[t]) for t in masks)           # every mask has a string form: go through from_str (strings and trees may be mixed)
     M = (lambda t: as_string(masks[t])) if use_str else Mtree
     obs = {"pinn_in": jnp.array(cfg["obs"]["inputs"]), "val": jnp.array(cfg["obs"]["vals"]), "eq_params": {}}
